@@ -159,7 +159,7 @@ def _shard(arg):
 
 
 def run(tier, seed, rec):
-    n_ex, steps, shards = (100, 40, 16) if tier == "quick" else (1200, 50, 32)
+    n_ex, steps, shards = (100, 40, 16) if tier == "quick" else (500, 50, 32)
     common.pool_merge(_shard, [(seed, i, n_ex, steps) for i in range(shards)], rec)
 
 
